@@ -9,6 +9,7 @@ import (
 	"strings"
 	"syscall"
 
+	"golang.org/x/sys/unix"
 	"google.golang.org/protobuf/proto"
 
 	"github.com/mutagen-io/mutagen/pkg/synchronization/core"
@@ -77,6 +78,19 @@ func listing(root string) map[string]diskSig {
 	return out
 }
 
+// fileDigests returns the sha1 of every regular file of a listing.
+func fileDigests(root string, l map[string]diskSig) map[string]string {
+	out := map[string]string{}
+	for p, s := range l {
+		if s.kind == syscall.S_IFREG {
+			if data, err := os.ReadFile(fullPath(root, p)); err == nil {
+				out[p] = string(fsx.Sha1(data))
+			}
+		}
+	}
+	return out
+}
+
 func diffListing(a, b map[string]diskSig, into map[string]bool) {
 	for p, s := range a {
 		if t, ok := b[p]; !ok || t != s {
@@ -125,7 +139,7 @@ type c13Step struct {
 func c13() {
 	r := vk.Start("C13", "exploration")
 	scratch := r.Scratch()
-	histories := r.Pick(100, 5000)
+	histories := r.Pick(240, 2500)
 	steps := r.Pick(5, 12)
 	workers := workerCount()
 	parallel(workers, func(w int) {
@@ -142,7 +156,7 @@ func c13() {
 	if r.Counter("steps_reusing_baseline_directories") == 0 {
 		r.Inconclusive("no accelerated scan re-used a baseline directory")
 	}
-	r.Finish("random disk trees followed by histories of edit steps (create, mkdir, in-place edit, chmod, delete, rename, replace by new inode, file<->directory, symlink create/retarget, empty-directory replacement, add child; 1..30 edits per step, also inside ignored directories) under both ignore syntaxes; after every step core.Scan(baseline = previous accelerated snapshot, recheck = changed paths [+ random extra paths], previous digest and ignore caches) must succeed and be proto.Equal to a cold scan; accelerated outputs feed the next step; non-trivial = step with at least one effective edit; distinct = (syntax, sorted edit operations of the step, baseline directories re-used or not, extras)", 60)
+	r.Finish("random disk trees followed by histories of edit steps (create, mkdir, in-place edit, chmod, delete, rename, replace by new inode, single-attribute content changes (only inode / only mtime / only size differs), file<->directory, symlink create/retarget, empty-directory replacement, add child; 1..30 edits per step, also inside ignored directories) under both ignore syntaxes; after every step core.Scan(baseline = previous accelerated snapshot, recheck = changed paths [+ random extra paths], previous digest and ignore caches) must succeed and be proto.Equal to a cold scan; accelerated outputs feed the next step; non-trivial = step with at least one effective edit; distinct = (syntax, sorted edit operations of the step, baseline directories re-used or not, extras)", 60)
 }
 
 func c13History(r *vk.Run, rng *rand.Rand, h, steps int, root string) {
@@ -194,8 +208,16 @@ func c13History(r *vk.Run, rng *rand.Rand, h, steps int, root string) {
 		changed := map[string]bool{}
 		step := c13Step{Step: s}
 		before := listing(root)
+		atScan, shaAtScan := before, fileDigests(root, before)
 		for e := 0; e < nEdits; e++ {
-			ed, paths, err := fsx.RandomEdit(rng, root)
+			var ed fsx.Edit
+			var paths []string
+			var err error
+			if rng.Intn(4) == 0 {
+				ed, paths = c13SingleAttributeEdit(rng, root)
+			} else {
+				ed, paths, err = fsx.RandomEdit(rng, root)
+			}
 			if err != nil {
 				r.Inconclusive("edit script failed")
 				return
@@ -210,6 +232,18 @@ func c13History(r *vk.Run, rng *rand.Rand, h, steps int, root string) {
 			after := listing(root)
 			diffListing(before, after, changed)
 			before = after
+		}
+		// The property's precondition, enforced rather than assumed: a file that
+		// looks the same as at the previous scan (kind, inode, size, mtime) must
+		// have the same content. Edits within one step can defeat the
+		// per-edit guarantees (ext4 hands a just-freed inode number straight
+		// back), so such a file gets its mtime bumped here.
+		for p, d := range fileDigests(root, before) {
+			if was, ok := atScan[p]; ok && was == before[p] && shaAtScan[p] != d {
+				fsx.BumpMtime(fullPath(root, p))
+				changed[p] = true
+				r.Count("precondition_repaired_by_mtime_bump", 1)
+			}
 		}
 		recheck := map[string]bool{}
 		for p := range changed {
@@ -320,6 +354,60 @@ func c13History(r *vk.Run, rng *rand.Rand, h, steps int, root string) {
 			r.Sample(map[string]any{"history": h, "config": cfg, "step": step, "baseline_directories_reused": reused})
 		}
 		prev = acc
+	}
+}
+
+// c13SingleAttributeEdit changes the content of a random file such that
+// exactly one of the attributes the digest cache is keyed on tells: the inode
+// (replacement by a new file of identical size, mtime and mode), the mtime
+// (in-place rewrite of identical size) or the size (in-place rewrite with the
+// old mtime restored).
+func c13SingleAttributeEdit(rng *rand.Rand, root string) (fsx.Edit, []string) {
+	var files []string
+	for p, s := range listing(root) {
+		if s.kind == syscall.S_IFREG && s.size > 0 {
+			files = append(files, p)
+		}
+	}
+	if len(files) == 0 {
+		return fsx.Edit{Op: "none"}, nil
+	}
+	sort.Strings(files)
+	p := files[rng.Intn(len(files))]
+	full := fullPath(root, p)
+	var st syscall.Stat_t
+	if syscall.Lstat(full, &st) != nil {
+		return fsx.Edit{Op: "none"}, nil
+	}
+	restore := func(path string) {
+		ts := []unix.Timespec{{Sec: st.Atim.Sec, Nsec: st.Atim.Nsec}, {Sec: st.Mtim.Sec, Nsec: st.Mtim.Nsec}}
+		unix.UtimesNanoAt(unix.AT_FDCWD, path, ts, unix.AT_SYMLINK_NOFOLLOW)
+	}
+	switch rng.Intn(3) {
+	case 0:
+		tmp := full + ".verif-twin"
+		if os.WriteFile(tmp, exactBytes(rng, int(st.Size)), 0o600) != nil {
+			return fsx.Edit{Op: "none"}, nil
+		}
+		os.Chmod(tmp, os.FileMode(st.Mode&0o7777))
+		restore(tmp)
+		if fsx.Inode(tmp) == st.Ino || os.Rename(tmp, full) != nil {
+			os.Remove(tmp)
+			return fsx.Edit{Op: "none"}, nil
+		}
+		return fsx.Edit{Op: "replace-only-inode-differs", Path: p}, []string{p}
+	case 1:
+		if os.WriteFile(full, exactBytes(rng, int(st.Size)), 0) != nil {
+			return fsx.Edit{Op: "none"}, nil
+		}
+		fsx.BumpMtime(full)
+		return fsx.Edit{Op: "edit-only-mtime-differs", Path: p}, []string{p}
+	default:
+		if os.WriteFile(full, exactBytes(rng, int(st.Size)+1+rng.Intn(9)), 0) != nil {
+			return fsx.Edit{Op: "none"}, nil
+		}
+		restore(full)
+		return fsx.Edit{Op: "edit-only-size-differs", Path: p}, []string{p}
 	}
 }
 
